@@ -9,8 +9,9 @@ def sh(cmd, **kw): return subprocess.run(cmd, shell=True, capture_output=True, t
 
 
 def main():
-    prop, k = sys.argv[1], sys.argv[2]
-    wt = '/tmp/wt/%s' % prop; out = '/tmp/wt/out/%s' % prop
+    base = os.environ.get('SEED_BASE', '/tmp/wt'); prop, k = sys.argv[1], sys.argv[2]
+    newk = os.environ.get('SEED_AS', k)
+    wt = '%s/%s' % (base, prop); out = '%s/out/%s' % (base, prop)
     patch = os.path.join(out, 'seed%s.patch' % k); demo = os.path.join(out, 'seed%s_demo.py' % k); notes = os.path.join(out, 'seed%s_notes.md' % k)
     for f in (patch, demo):
         if not os.path.exists(f): print('missing', f); return 2
@@ -30,7 +31,7 @@ def main():
     print('%s seed%s: demo unchanged rc=%d, demo with change rc=%d, tests: %s -> %s' % (prop, k, r0.returncode, r1.returncode, t.stdout.strip().split('\n')[-1], 'CONFIRMED' if ok else 'REJECTED'))
     if not ok:
         print(r0.stdout[-300:], r0.stderr[-300:], r1.stdout[-300:], r1.stderr[-300:]); return 1
-    sid = '%s-%s' % (prop, k)
+    sid = '%s-%s' % (prop, newk)
     d = os.path.join(HERE, 'seeded', sid); os.makedirs(d, exist_ok=True)
     shutil.copy(patch, os.path.join(d, 'patch.diff')); shutil.copy(demo, os.path.join(d, 'demo.py'))
     if os.path.exists(notes): shutil.copy(notes, os.path.join(d, 'notes.md'))
